@@ -48,7 +48,11 @@ def dir2(chk, quick, rnd):
         # every base form (one state per opcode row and operand form: MaxDev = 0) plus a sample of the one-deviation variants
         base = sorted(set(ia32space.gen(0, False, None, chk)['done']))
         rest = sorted(set(hexes) - set(base))
-        hexes = sorted(set(base) | set(ia32space.stratified(rest, rnd, 20000)))      # every (prefix set, map, ModRM mod/rm, SIB base) stratum
+        # ... and every one-deviation variant that is prefixes + opcode alone (each prefix on each operand-less row: the
+        # string instructions under F2/F3, lock, segment and size prefixes on one-byte instructions)
+        bare = [h for h in rest if ia32space.opcode_only(h)]
+        chk.cov['dir2_opcode_only'] = len(bare)
+        hexes = sorted(set(base) | set(bare) | set(ia32space.stratified(rest, rnd, 20000)))      # every (prefix set, map, ModRM mod/rm, SIB base) stratum
     lay = render_pass(chk, hexes)
     ids = sorted(lay)
     gas = asmlib.gnu_as([asm_text.render(lay[k]['intel']) for k in ids], 'intel')
